@@ -222,6 +222,7 @@ def plan_C04(tier, seed):
     T = ("Trace_Sexa", "Trace.cfg")
     nsh, per = (16, 250) if tier == "quick" else (64, 1500)
     sh = [Shard("sexa_%02d" % i, drv_angle.gen_sexa, dict(seed=seed, n=per, shard=i), *T) for i in range(nsh)]
+    sh += [Shard("ties_%02d" % i, drv_angle.gen_sexa_ties, dict(seed=seed, n=per * 4, shard=i), *T) for i in range(nsh // 8)]
     degs = [0, 1, 59, 179, 180, 358, 359]
     offs = list(range(-25, 26)) if tier == "thorough" else [-6, -5, -4, -1, 0, 1, 4, 5, 6]
     for n in (0, 1, 2):
@@ -234,7 +235,7 @@ def plan_C04(tier, seed):
              "degrees x 5 seconds values, n_dec 0..2 (321,300 states): no 60, half-unit read-back. Conformance: (a) the same "
              "grid values are printed by the real Angle.dms_str (both styles) and judged; (b) seeded values in (-360,360) "
              "concentrated within 1e-12, 1-3 ulp and 0.4/0.5/0.6 last-decimal units of whole seconds/minutes/degrees (hours for "
-             "RA), of 0 and +-360, plus denormals and uniform random: dms_tuple, ra_tuple, dms_str, ra_str x fancy/colon x "
+             "RA), of 0 and +-360, plus denormals and uniform random; (c) values below one degree / hour whose seconds lie 1.5e-11 .. 1e-7 arcsec either side of a rounding tie of the requested decimal, judged with a slack of 7e-12 arcsec (single rounding): dms_tuple, ra_tuple, dms_str, ra_str x fancy/colon x "
              "n_dec in {-1,0,1,2,3,4,6,9,12}. The printed string is tokenised as text; recombination, range, sign and "
              "half-unit read-back modulo 360/24 are evaluated by TLC in exact fixed point. Distinct case = (value, ra, style, n_dec).",
         assumptions=["the printed degree/hour field may show a full turn (24h) after a rounding carry: the statement only asks "
